@@ -383,6 +383,7 @@ def model_specs(draw, profile=None):
                     out.add(group_of[b])
         return out
 
+    pending_residual_chain = []
     for m in range(n_j):
         jn = "j%d" % m
         add_comp(jn, "junc", db=g.coin(0.4) if p["allow_junction_init"] else False)
@@ -433,7 +434,17 @@ def model_specs(draw, profile=None):
                 g.labels.add("junction:residual")
         if len(chosen) >= 2:
             g.labels.add("junction:fan%d" % len(chosen))
+        pending_residual_chain.append(jn)
 
+    for jn in juncs[:-1]:
+        res_edges = [(a, b) for (a, b), v in links.items() if a == jn and v == ">"]
+        later = [x for x in juncs[juncs.index(jn) + 1 :] if (jn, x) not in links]
+        if res_edges and later and g.coin(0.4):
+            tgt = g.pick(later)
+            if not (up_groups(jn) & down_groups(tgt)):
+                del links[res_edges[0]]
+                links[(jn, tgt)] = ">"
+                g.labels.add("junction:residual-into-junction")
     if not pars:
         new_par("rate")  # a framework needs at least one parameter
     # ---- characteristics ---------------------------------------------------------------
@@ -732,6 +743,9 @@ def model_specs(draw, profile=None):
         g.labels.add("second-population-type")
     spec["data"] = data
     spec["pops"] = pops + extra_pops
+    if g.coin(0.5):
+        spec["comps"] = list(draw(st.permutations(spec["comps"])))  # the sheet order of compartments is free
+        g.labels.add("comps:sheet-order-shuffled")
     spec["pars"] = [{k: v for k, v in d.items() if not k.startswith("_")} for d in pars.values()]
     spec["links"] = [[a, b, v] for (a, b), v in links.items() if v]
     g.labels.add("pops:%d" % n_pops)
